@@ -1,7 +1,7 @@
 """Execute ValueSemantics.tla programs on the real pySDC data types and compare after every statement."""
 import numpy as np
 
-N = 2
+N = 4  # must equal the constant N of ValueSemantics.tla (4: a strided view of a component still has two entries)
 
 
 def families():
@@ -75,6 +75,9 @@ class _NumpyFamily:
             env[x].flat[0] = 7
         elif op == 'comp':
             env[x] = getattr(env[st[2]], self.f['comps'][st[3]])
+        elif op == 'stride':
+            y = env[st[2]]
+            env[x] = y[:, ::2] if type(y) is self.f['mc'] else y[::2]
         elif op == 'abs':
             r = abs(env[x])
             if not isinstance(r, float) or r != float(st[2]):
@@ -129,7 +132,7 @@ class _ParticleFamily:
         return any(np.shares_memory(x, y) for x in a for y in b)
 
     def supports(self, st):
-        if st[0] in ('comp', 'setall', 'setitem', 'ufunc', 'out', 'augscalar'):
+        if st[0] in ('comp', 'setall', 'setitem', 'ufunc', 'out', 'augscalar', 'stride'):
             return False
         if st[0] == 'scale' and st[3] == 'r':
             return False
